@@ -19,4 +19,20 @@ PROPS = {
         partial=['format_bytes_stable: byte-level idempotence and re-lexing stability need the scanner model (see DESIGN C09); currently only checked by the direct oracle'],
         refuted=[],
     ),
+    'C17': dict(
+        title='A parsed configuration can be evaluated concurrently',
+        runs=[
+            dict(cmd='c17', n_quick=200, n_thorough=3000, thorough_seeds=3, replayable=False, timeout=3000),
+            dict(cmd='c17race', n_quick=40, n_thorough=600, thorough_seeds=2, timeout=3000),
+        ],
+        trusted_base=[KERNEL + '; std++ gmap', GEN + ' (Gen/AnonOps.v: every function of hclsyntax that touches AnonSymbolExpr.values and whether it holds valuesLock, via go/ast)', HARNESS,
+                      'hook hclsyntax/anon_hook_verif.go + 6 added call lines in expression.go (empty inlined functions without the tag): records the lock-ordered operation trace',
+                      'Go race detector (go build -race) as supporting evidence only',
+                      'modelled, not verified: the Go runtime (scheduler, memory model), sync.RWMutex, map implementation'],
+        assumptions=['the only shared mutable state of a parsed tree is AnonSymbolExpr.values (checked syntactically by the regenerated table ops_guarded, and by the direct oracle: concurrent results equal solo results)',
+                     'each concurrent evaluation uses its own EvalContext (the documented contract); shared parents are only read',
+                     'Go memory-model data races are runtime behaviour an executable Gallina model cannot exhibit: the claim is PARTIAL there; the race detector run is supporting evidence'],
+        partial=['data-race freedom in the Go memory model: not provable in the model; checked per run by go -race on the same workload'],
+        refuted=[],
+    ),
 }
